@@ -100,6 +100,42 @@ def main():
                 chk.kernel_violation((e, c["fn"]), {"case": _plain(c), "code": info,
                                                     "spec": _plain({k: v for k, v in out.items() if k != "A"})})
         chk.traces += chk.cases
+    # larger KKT matrices with dyadic entries (not all of them can be equilibrated): whenever from_equilibrated_kkt returns,
+    # the predicate must hold on its weights -- evaluated exactly with Fractions
+    rng = np.random.default_rng(chk.seed + 20)
+    nret = nraise = 0
+    for t in range(3000 if chk.thorough else 500):
+        n = int(rng.integers(1, 4))
+        m = int(rng.integers(1, 6))
+        He = rng.integers(-6, 7, size=(n, n))
+        H = np.where(rng.uniform(size=(n, n)) < 0.5, np.ldexp(1.0, He) * rng.choice([1.0, 1.5, -1.0, 1.25], size=(n, n)), 0.0)
+        H = np.triu(H) + np.triu(H, 1).T
+        if t % 7 == 0:
+            H[:] = 0.0
+        Je = rng.integers(-6, 7, size=(m, n))
+        J = np.where(rng.uniform(size=(m, n)) < 0.7, np.ldexp(1.0, Je) * rng.choice([1.0, 1.5, -1.75], size=(m, n)), 0.0)
+        if t % 5 == 0:
+            J[:] = np.ldexp(1.0, int(rng.integers(-4, 5)))          # one variable coupled to equal rows
+        try:
+            sc = Scaling.from_equilibrated_kkt(sps.coo_matrix(H), sps.coo_matrix(J))
+        except Exception as e:  # noqa
+            nraise += 1
+            if "failed to converge" not in str(e):
+                chk.kernel_violation(("kkt.random.exception", type(e).__name__), {"H": H.tolist(), "J": J.tolist(), "msg": str(e)[:100]})
+            continue
+        nret += 1
+        D = [-int(w) for w in sc.var_weights] + [int(w) for w in sc.cons_weights]
+        K = np.block([[H, J.T], [J, np.zeros((m, m))]])
+        bad = None
+        for col in range(n + m):
+            ssum = sum(Fraction(abs(float(K[r, col]))) * Fraction(2) ** (D[r] + D[col]) for r in range(n + m))
+            if ssum != 0 and not (1 <= ssum < 4):
+                bad = (col, float(ssum))
+                break
+        chk.case(("kkt.random", t))
+        if bad is not None:
+            chk.kernel_violation(("kkt.random.colsum.range", "returned"), {"H": H.tolist(), "J": J.tolist(), "weights": D, "column": bad[0], "sum": bad[1]})
+    chk.cov["kkt_random"] = {"returned": nret, "raised_not_converged": nraise}
     chk.assumptions += ["exactness domain: magnitudes n/32 with n < 2^11; every operation of scale.py on them is exact in binary64",
                         "the range predicates are evaluated with python Fractions on the *code's* weights"]
     return chk.finish(rule="TLC enumerates every case of the domain (nominal vectors, gradient+2x2 Jacobian, 3x3 KKT) and checks the "
